@@ -55,9 +55,19 @@ def run(chk):
     # group the behaviours of the specification by program
     progs = {}
     for c in res.cases:
-        key = json.dumps(c["srcs"]["canon"])
-        p = progs.setdefault(key, {"src": c["srcs"]["canon"], "full": None, "stopped": [], "cut": []})
-        eff = c["expect"]["effects"]
+        key = json.dumps([c["srcs"]["canon"], c.get("tag")])
+        # the handlers' effects follow those of the top-level code; the events a stopped or cut run did not reach
+        # are not in its case, so the delivered sequence is taken from the uninterrupted run (below)
+        eff = list(c["expect"]["effects"])
+        for e in c["expect"].get("events", []):
+            eff += e["effects"]
+        c["expect"]["effects"] = eff
+        if c["expect"].get("events"):
+            last = [e for e in c["expect"]["events"] if e["result"] != ["ok"] and e["result"] != ["nohandler"]]
+            c["expect"]["result"] = last[0]["result"] if last else ["ok"]
+        p = progs.setdefault(key, {"src": c["srcs"]["canon"], "full": None, "stopped": [], "cut": [], "events": []})
+        if len(c.get("events", [])) > len(p["events"]):
+            p["events"] = c["events"]
         if c["stopped"]:
             if not c["cut"]:
                 p["stopped"].append(eff)
@@ -75,7 +85,7 @@ def run(chk):
             if s2 != ref[:len(s2)] and not (nonterm and len(s2) > len(ref)):
                 raise HarnessError("specification: a stopped outcome is not a prefix of the uninterrupted run")
         c = {"id": "stop-%d" % i, "stage": "stop", "class": "stop/" + ("nonterm" if nonterm else "term"), "src": p["src"],
-             "inputs": [], "nonterm": nonterm, "refK": 3000, "capK": 400 if chk.tier == "quick" else 3000,
+             "inputs": [], "events": p["events"], "nonterm": nonterm, "refK": 3000, "capK": 400 if chk.tier == "quick" else 3000,
              "seed": common.seed(), "expect": p["full"]["expect"] if not nonterm else {"effects": [], "result": []},
              "stopped": p["stopped"] if not nonterm else []}
         cases.append(c)
